@@ -12,7 +12,7 @@ echo "== apply"; git apply $SRC/patch.diff || { echo APPLY-FAILED; exit 1; }
 echo "== build"; go build ./... || { echo BUILD-FAILED; exit 1; }
 echo "== suite with change"; go test -vet=off -count=1 ./... 2>&1 | grep -v "^ok\|no test files" | head -20; SUITE=${PIPESTATUS[0]}
 echo "suite exit=$SUITE"
-cp $SRC/seeded_demo_test.go $PKG/seeded_demo_test.go
+if [ -f $SRC/seeded_demo_test.go.txt ]; then cp $SRC/seeded_demo_test.go.txt $PKG/seeded_demo_test.go; else cp $SRC/seeded_demo_test.go $PKG/seeded_demo_test.go; fi
 echo "== demo with change (must fail)"; go test -vet=off -count=1 -run TestSeededDemo ./$PKG 2>&1 | tail -5; D1=${PIPESTATUS[0]}
 git apply -R $SRC/patch.diff
 echo "== demo without change (must pass)"; go test -vet=off -count=1 -run TestSeededDemo ./$PKG 2>&1 | tail -3; D2=${PIPESTATUS[0]}
